@@ -796,6 +796,14 @@ func (c *c09bCase) target(id uint64, which int, delta int64, seedP uint64) {
 	lt, elt := rates.LiquidationThreshold, rates.ELiquidationThreshold
 	cands := []sdk.Dec{lt, elt, lt.Mul(r1.LiquidationThreshold), lt.Mul(r2.LiquidationThreshold),
 		elt.Mul(r1.LiquidationThreshold), elt.Mul(r2.LiquidationThreshold), lt.MulTruncate(r1.LiquidationThreshold), lt.MulTruncate(r2.LiquidationThreshold)}
+	// bias the choice towards the thresholds that are plausible for this borrow (3 of 4 draws)
+	if which%4 != 0 {
+		if bp.BridgedAssetAmount.Amount.IsZero() {
+			which = (which / 4) % 2
+		} else {
+			which = 2 + (which/4)%4
+		}
+	}
 	th := cands[which%len(cands)]
 	tgt := new(big.Int).Add(th.BigInt(), big.NewInt(delta))
 	// the debt at the next block's visit
@@ -925,10 +933,10 @@ func TestC09Borrow(t *testing.T) {
 					}
 				case kk < 87:
 					c.skip([]int64{60, 3600, 86400, 2592000, 31557600}[s.a%5])
-				case kk < 90:
-					c.setKill(s.a%2 == 0)
-				case kk < 93:
-					c.setWhite(s.a%3 != 0, s.b%2 == 0)
+				case kk < 89:
+					c.setKill(s.a%3 == 0)
+				case kk < 92:
+					c.setWhite(s.a%4 != 0, s.b%2 == 0)
 				case kk < 96:
 					c.drain(w.assets[s.a%4], w.pools[s.b%2])
 				case kk < 98:
